@@ -122,4 +122,25 @@ PROPS["C16"] = render_prop(
     "Theorem: for loader-built trees, executing a template from two arbitrary well-formed condition tables gives the same output, result and call log, hence the i-th execution of any history on one template object equals a fresh execution (history_pure); tied to the code by histories of 1-3 valuations (including failing renders and failing writers) on one object, plus the direct oracle comparing every run with a fresh object.",
     "")
 
+PROPS["C15"] = dict(level="proof", allowed_axioms=FLOCQ_AXIOMS,
+    rule=SOUP_RULE + "; every case also snapshots the whole shared parsed tree (verif hook html.VerifSnapshot: Tag caches, attribute order, pointers) before and after all executions; plus runs under the Go race detector: 2..64 goroutines executing the same/different templates of one manager, racing first executions, with and without a reused template object per goroutine, results compared with serial execution",
+    streams=[dict(name="tmpl", family="tmpl", quick=2000, thorough=100000, nontrivial=r"^(OK|ERR)")],
+    race=dict(quick=25, thorough=600),
+    trusted_base=TB_RENDER + ["the Go race detector (go build -race) and the Go scheduler: data-race freedom of the real runtime rests on these runs"],
+    modelled=MOD_RENDER + ["html/tag.go Tag.AttrMap / Tag.SortedAttr caches (Sys/Conc.v)"],
+    assumptions=["each goroutine uses its own template object, data and writer"],
+    level_text="PARTIAL. Theorems: tags published by the scanner are cache-complete so Execute's accessors never write the shared tree, and executions that only read shared state get, under every interleaving, the result they get alone; the renderer model takes the tree as an immutable argument. Tie: the snapshot oracle checks on every generated case that no cell of the shared tree changes during Execute, and the race-detector runs check data-race freedom and concurrent = serial on the real runtime.",
+    level_note="The Go memory model / scheduler cannot be exhibited by an executable Gallina model: absence of data races in the real runtime is exploration (race detector), not proof.",
+    technique="Coq theorems on the cache / schedule logic + snapshot correspondence + Go race detector runs")
+PROPS["C18"] = dict(level="proof",
+    rule="ALL histories of length 0..7 over {Reload succeeding, Reload failing, Instance+Render of an existing name, of a missing name, GetTemplate} x 2 hot-reload modes x 2 outcomes of the first build (390 624 histories, exhaustive in both tiers) against a fake template manager; non-trivial = the history contains at least one operation; plus concurrent Reload / Instance+Render under the Go race detector",
+    streams=[dict(name="reload", family="reload", quick=390624, thorough=390624, nontrivial=r" ", exhaustive_always=True)],
+    race=dict(quick=40, thorough=1000),
+    trusted_base=["the Go race detector for the concurrency clause", "the builder (types.Factory) is an oracle"],
+    modelled=["render.go (NewHTMLRender, Reload, Instance, GetTemplate, Render, WriteContentType)"],
+    assumptions=[],
+    level_text="Theorems by induction over operation histories of the renderer state machine: without hot reload every request is answered from the last successful build of the history so far (a failed Reload keeps the previous set, none yet = ErrNoTemplateSet), with hot reload every request is answered from its own build or surfaces its own build error with nothing written, Reload answers its own outcome, the content type is set only on an empty header; tied to the code by running ALL histories up to length 7 in both modes; concurrent Reload/requests run under the race detector.",
+    level_note="Race freedom of Reload vs requests is exploration (race detector) — the schedule clause is partial.",
+    technique="Coq induction over histories + exhaustive history correspondence + Go race detector runs")
+
 NOT_YET = {}
